@@ -132,24 +132,20 @@ theorem abs_agree {v : View} {d d' : Disk} (h : Agree v d d') : abs d' v = abs d
   unfold liveRows
   rw [h.1 x hx', deletedIn_agree h]
 
-theorem view_agree {v : View} {d d' : Disk} (h : Agree v d d') (hr : replay d'.recs = replay d.recs) (ht : d'.torn = d.torn)
+theorem view_agree {v : View} {d d' : Disk} (h : Agree v d d') (hr : replay d'.recs = replay d.recs)
     (hv : view d = .ok v) : view d' = .ok v := by
   unfold view at hv ⊢
-  rw [hr, ht]
-  cases htn : d.torn with
-  | true => simp [htn] at hv
-  | false =>
-    simp only [htn] at hv ⊢
-    cases hl : View.empty.applyRecs (replay d.recs) with
-    | error e => simp [hl] at hv
-    | ok v0 =>
-      simp only [hl] at hv ⊢
-      by_cases hok : filesOk d v0 = true
-      · simp [hok] at hv
-        subst hv
-        simp [filesOk_agree h, hok]
-      · simp only [hok, Bool.false_eq_true, if_false] at hv
-        split at hv <;> cases hv
+  rw [hr]
+  cases hl : View.empty.applyRecs (replay d.recs) with
+  | error e => simp [hl] at hv
+  | ok v0 =>
+    simp only [hl] at hv ⊢
+    by_cases hok : filesOk d v0 = true
+    · simp [hok] at hv
+      subst hv
+      simp [filesOk_agree h, hok]
+    · simp only [hok, Bool.false_eq_true, if_false] at hv
+      split at hv <;> cases hv
 
 /-- Steps that only touch files the view does not reference. -/
 def Fresh (v : View) : PStep → Prop
@@ -157,6 +153,7 @@ def Fresh (v : View) : PStep → Prop
   | .writeFile t r _ => (t, r) ∉ v.rowsets
   | .writeDv t r d _ => (t, r, d) ∉ v.dvs
   | .rmdir t r => (t, r) ∉ v.rowsets
+  | .rmdv t r d => (t, r, d) ∉ v.dvs
   | _ => False
 
 theorem find_append_ne {α : Type} (p : α → Bool) (l : List α) (a : α) (h : p a = false) :
@@ -217,6 +214,22 @@ theorem agree_apply_fresh (v : View) (d : Disk) (s : PStep) (p : Progress) (h : 
           simp at hy; rw [hy.1, hy.2]; simp; intro h1 h2; exact hne (by rw [h1, h2])
         rw [this]; exact ih
       · simp only [hy, Bool.not_false, if_true, List.find?_cons, ih]
+  | rmdv t r dv =>
+    refine ⟨⟨fun _ _ => rfl, ?_⟩, rfl, rfl⟩
+    intro x hx
+    simp only [Disk.apply, findDv]
+    have hne : (x.1, x.2.1, x.2.2) ≠ (t, r, dv) := fun he => h (by rw [← he]; exact hx)
+    induction d.dvfiles with
+    | nil => rfl
+    | cons y ys ih =>
+      simp only [List.filter_cons]
+      by_cases hy : (y.t == t && y.r == r && y.d == dv) = true
+      · simp only [hy, Bool.not_true, Bool.false_eq_true, if_false, List.find?_cons]
+        have : (y.t == x.1 && y.r == x.2.1 && y.d == x.2.2) = false := by
+          simp at hy; rw [hy.1.1, hy.1.2, hy.2]; simp; intro h1 h2 h3; exact hne (by rw [h1, h2, h3])
+        rw [this]; exact ih
+      · simp only [hy, Bool.not_false, if_true, List.find?_cons, ih]
+  | syncDir => cases h
   | mkdirDb => cases h
   | mkdirDv => cases h
   | createManifest => cases h
@@ -237,13 +250,14 @@ theorem agree_applyAll_fresh (v : View) (steps : List PStep) (h : ∀ s ∈ step
 
 /-- Steps that change neither `manifest.json` nor any referenced file. -/
 def Harmless (v : View) (s : PStep) : Prop :=
-  Fresh v s ∨ s = .mkdirDb ∨ s = .mkdirDv ∨ s = .createManifest ∨ s = .createTmp ∨ ∃ rs, s = .appendTmp rs
+  Fresh v s ∨ s = .mkdirDb ∨ s = .mkdirDv ∨ s = .createManifest ∨ s = .createTmp ∨ s = .syncDir ∨ ∃ rs, s = .appendTmp rs
 
 theorem agree_apply_harmless (v : View) (d : Disk) (s : PStep) (p : Progress) (h : Harmless v s) :
     Agree v d (d.apply s p) ∧ (d.apply s p).recs = d.recs ∧ (d.apply s p).torn = d.torn := by
-  rcases h with h | h | h | h | h | ⟨rs, h⟩
+  rcases h with h | h | h | h | h | h | ⟨rs, h⟩
   · exact agree_apply_fresh v d s p h
   all_goals subst h
+  · exact ⟨Agree.refl v d, rfl, rfl⟩
   · exact ⟨Agree.refl v d, rfl, rfl⟩
   · exact ⟨Agree.refl v d, rfl, rfl⟩
   · exact ⟨Agree.refl v d, rfl, rfl⟩
@@ -260,12 +274,12 @@ theorem agree_applyAll_harmless (v : View) (steps : List PStep) (h : ∀ s ∈ s
     simp only [Disk.applyAll, List.foldl_cons] at h2 ⊢
     exact ⟨Agree.trans h1.1 h2.1, h2.2.1.trans h1.2.1, h2.2.2.trans h1.2.2⟩
 
-/-- A crash among the harmless steps in front of the decisive last step. -/
-theorem crash_before_last (v : View) (d : Disk) (pre : List PStep) (last : PStep) (k : Nat) (p : Option Progress)
+/-- A crash among the harmless steps in front of the decisive tail of a step list. -/
+theorem crash_before_tail (v : View) (d : Disk) (pre tail : List PStep) (k : Nat) (p : Option Progress)
     (hpre : ∀ x ∈ pre, Harmless v x) (hk : k < pre.length ∨ (k = pre.length ∧ p = none)) :
-    Agree v d (crash d (pre ++ [last]) k p) ∧ (crash d (pre ++ [last]) k p).recs = d.recs ∧
-      (crash d (pre ++ [last]) k p).torn = d.torn := by
-  have htake : (pre ++ [last]).take k = pre.take k := by
+    Agree v d (crash d (pre ++ tail) k p) ∧ (crash d (pre ++ tail) k p).recs = d.recs ∧
+      (crash d (pre ++ tail) k p).torn = d.torn := by
+  have htake : (pre ++ tail).take k = pre.take k := by
     rcases hk with hk | ⟨hk, _⟩
     · exact List.take_append_of_le_length (Nat.le_of_lt hk)
     · subst hk; simp
@@ -273,7 +287,7 @@ theorem crash_before_last (v : View) (d : Disk) (pre : List PStep) (last : PStep
   unfold crash
   rw [htake]
   rcases hk with hk | ⟨hk, hp⟩
-  · have hget : (pre ++ [last])[k]? = some pre[k] := by
+  · have hget : (pre ++ tail)[k]? = some pre[k] := by
       rw [List.getElem?_append_left hk]; exact List.getElem?_eq_getElem hk
     rw [hget]
     cases p with
@@ -282,8 +296,13 @@ theorem crash_before_last (v : View) (d : Disk) (pre : List PStep) (last : PStep
       have h1 := agree_apply_harmless v (d.applyAll (pre.take k)) pre[k] p (hpre _ (List.getElem_mem hk))
       exact ⟨Agree.trans h0.1 h1.1, h1.2.1.trans h0.2.1, h1.2.2.trans h0.2.2⟩
   · subst hp
-    cases (pre ++ [last])[k]? <;> exact h0
+    cases (pre ++ tail)[k]? <;> exact h0
 
+theorem crash_before_last (v : View) (d : Disk) (pre : List PStep) (last : PStep) (k : Nat) (p : Option Progress)
+    (hpre : ∀ x ∈ pre, Harmless v x) (hk : k < pre.length ∨ (k = pre.length ∧ p = none)) :
+    Agree v d (crash d (pre ++ [last]) k p) ∧ (crash d (pre ++ [last]) k p).recs = d.recs ∧
+      (crash d (pre ++ [last]) k p).torn = d.torn :=
+  crash_before_tail v d pre [last] k p hpre hk
 
 /-! ### the view loaded from a rewritten manifest -/
 
@@ -489,23 +508,19 @@ theorem load_rewrite (v : View) (hc : Canon v) :
   simp_all
 
 theorem view_ok_parts {d : Disk} {v : View} (hv : view d = .ok v) :
-    d.torn = false ∧ View.empty.applyRecs (replay d.recs) = .ok v ∧ filesOk d v = true := by
+    View.empty.applyRecs (replay d.recs) = .ok v ∧ filesOk d v = true := by
   unfold view at hv
-  cases htn : d.torn with
-  | true => simp [htn] at hv
-  | false =>
-    simp only [htn] at hv
-    cases hl : View.empty.applyRecs (replay d.recs) with
-    | error e => simp [hl] at hv
-    | ok v0 =>
-      simp only [hl] at hv
-      by_cases hok : filesOk d v0 = true
-      · simp [hok] at hv; subst hv; exact ⟨rfl, rfl, hok⟩
-      · simp only [hok, Bool.false_eq_true, if_false] at hv
-        split at hv <;> cases hv
+  cases hl : View.empty.applyRecs (replay d.recs) with
+  | error e => simp [hl] at hv
+  | ok v0 =>
+    simp only [hl] at hv
+    by_cases hok : filesOk d v0 = true
+    · simp [hok] at hv; subst hv; exact ⟨rfl, hok⟩
+    · simp only [hok, Bool.false_eq_true, if_false] at hv
+      split at hv <;> cases hv
 
 theorem canon_of_view {d : Disk} {v : View} (hv : view d = .ok v) : Canon v :=
-  canon_applyRecs _ _ _ canon_empty (view_ok_parts hv).2.1
+  canon_applyRecs _ _ _ canon_empty (view_ok_parts hv).1
 
 theorem agree_apply_rename (v : View) (d : Disk) (p : Progress) : Agree v d (d.apply .renameTmp p) := by
   simp only [Disk.apply]
